@@ -95,7 +95,9 @@ def gen_times(rng, kind, n):
     out = []
     for _ in range(n):
         t = anchor + dt.timedelta(seconds=span_s * rng.random())
-        t = t.replace(microsecond=t.microsecond // 1000 * 1000)
+        if not (span_s <= 0.05 and anchor.second % 2 == 0):
+            # (short spans from an even-second anchor keep the microseconds: data finer than a millisecond, seeded/C07o)
+            t = t.replace(microsecond=t.microsecond // 1000 * 1000)
         if kind == "mixed" and rng.random() < 0.3:
             out.append(t.date())
         else:
@@ -259,7 +261,21 @@ def gen_spec(rng, scale_kind=None, n=None, direction=None, c08=False, text_class
             d["when"] = d["time"]
     if dense:
         pass
+    sub_ms = [d["time"] for d in data if isinstance(d["time"], dt.datetime) and d["time"].microsecond % 1000]
+    if sub_ms and scale_kind != "linear":
+        # data finer than a millisecond: the axis domain itself stays at millisecond resolution (the quantifier of the scale
+        # properties), given explicitly and covering the data
+        ts = [normalise_time(d["time"]) for d in data]
+        lo, hi = opts["domain"] if "domain" in opts else (min(ts), max(ts))
+        lo = lo.replace(microsecond=lo.microsecond // 1000 * 1000)
+        if hi.microsecond % 1000:
+            hi = hi.replace(microsecond=hi.microsecond // 1000 * 1000) + dt.timedelta(milliseconds=1)
+        if lo == hi:
+            hi = hi + dt.timedelta(milliseconds=1)
+        opts["domain"] = [lo, hi]
     spec = {"data": data, "options": opts}
+    if sub_ms:
+        spec["sub_ms"] = True
     if tkind in ("datetime", "mixed") and rng.random() < 0.08:
         spec["stamp_like"] = True
     return spec
